@@ -290,6 +290,14 @@ func (v V) Build(rec *Recorder) interface{} {
 		return sv.Interface()
 	case "nilptr":
 		return (*int)(nil)
+	case "nilslice": // typed nil slices and maps: slices and maps like any other, just empty
+		return []interface{}(nil)
+	case "nilstrs":
+		return []string(nil)
+	case "nilmap":
+		return map[string]interface{}(nil)
+	case "nilmapint":
+		return map[string]int(nil)
 	case "nilS":
 		return (*S2)(nil)
 	case "func":
